@@ -35,7 +35,7 @@ fn build_root() -> Context<'static> {
     ctx
 }
 
-const P18: [&str; 30] = [
+const P18: [&str; 32] = [
     "xs + [9]", "xs + ys", "xs + xs", "(xs + ys) + xs", "e + xs", "s + 'c'", "s + s", "es + s", "xs.map(v, v + 1)", "xs.filter(v, v > 1)", "n.map(l, l + [0])", "n[0] + n[1]",
     "m.k + [2]", "m.map(k, m[k] + [5])", "[xs, xs]", "{'a': xs}", "r0 + [7]", "r0 + r0",
     // a macro that fails in the middle of its loop, and macros that read a same-named outer
@@ -48,6 +48,9 @@ const P18: [&str; 30] = [
     // the same question asked of two short-lived values of the same shape but different content
     // (an answer remembered by the address of a temporary would be stale)
     "[has({'a': 1}.a), {'a': 1}.size() == 1, 1 in {'a': 1}]", "[has({'b': 1}.a), {'b': 2}.size() == 2, 1 in {'b': 1}]",
+    // built-in names selected as members without being called, next to programs that call them
+    // (a registry filled lazily by the first call would change what later executions see)
+    "xs.size", "[s.matches, xs.string]",
 ];
 
 fn arc_id(v: &Value) -> Option<(usize, usize)> {
